@@ -70,8 +70,11 @@ def run_driver(lines):
         return []
     if not os.path.exists(DRIVER):
         raise DriverError("model driver not built: " + DRIVER)
-    p = subprocess.run([DRIVER], input=("\n".join(lines) + "\n").encode(), stdout=subprocess.PIPE,
-                       stderr=subprocess.PIPE)
+    try:
+        p = subprocess.run([DRIVER], input=("\n".join(lines) + "\n").encode(), stdout=subprocess.PIPE,
+                           stderr=subprocess.PIPE, timeout=float(os.environ.get("OAS_DRIVER_TIMEOUT", "900")))
+    except subprocess.TimeoutExpired:
+        raise DriverError("model driver timed out on %d request lines (first op %s)" % (len(lines), lines[0].split(" ")[0]))
     if p.returncode != 0:
         raise DriverError("driver exit %d: %s" % (p.returncode, p.stderr.decode()[-500:]))
     out = []
